@@ -101,11 +101,15 @@ fn build_alphabet(
             ops.push(Op::AddEdges(vec![e1.clone(), EdgeSpec { u: names[0], v: names[0], w: weights[0], attr: None }, e1.clone()]));
             ops.push(Op::AddEdges(vec![e1.clone(), e1.clone(), EdgeSpec { u: names[1], v: names[0], w: weights[0], attr: None }]));
         }
-        for &a in names {
-            for &b in names {
-                for &c in names {
-                    for &d in names {
-                        ops.push(Op::AddEdgeTuples(vec![(a, b), (c, d)]));
+        // tuple batches create unweighted edges: only in alphabets that have unweighted edges anyway
+        // (the uniformly weighted alphabets of C03 / C09 must stay uniformly weighted)
+        if weights.contains(&NAN_BITS) {
+            for &a in names {
+                for &b in names {
+                    for &c in names {
+                        for &d in names {
+                            ops.push(Op::AddEdgeTuples(vec![(a, b), (c, d)]));
+                        }
                     }
                 }
             }
@@ -144,6 +148,9 @@ fn alphabet_plain(name: &str) -> Alphabet {
         "sliceWA2" => build_alphabet("sliceWA2", n2, &[None], &[f(1.0), f(2.0)], true, false, false, false),
         "sliceA2" => build_alphabet("sliceA2", n2, &[None, Some(1), Some(2)], &[NAN_BITS], true, false, false, false),
         // uniform weight alphabets (C03, C09)
+        // w2 with batch calls (pairs, three-element batches with a failing middle element, tuple batches)
+        "w2b" => build_alphabet("w2b", n2, &[None], &[f(1.0), f(2.0)], false, false, false, true),
+        "nan2b" => build_alphabet("nan2b", n2, &[None], &[NAN_BITS], false, false, false, true),
         "w2" => build_alphabet("w2", n2, &[None], &[f(1.0), f(2.0), f(3.0)], false, false, false, false),
         "w3" => build_alphabet("w3", n3, &[None], &[f(1.0), f(2.0), f(3.0)], false, false, false, false),
         "w3s" => build_alphabet("w3s", n3, &[None], &[f(1.0), f(2.0)], false, false, false, false),
@@ -260,6 +267,8 @@ struct SpecState {
     spec_idx: usize,
     specs: GraphSpecs,
     seen: Mutex<HashSet<u128>>,
+    /// objects left behind by batch calls that already had the state oracle
+    seen_batch: Mutex<HashSet<u128>>,
     frontier: Vec<Hist>,
     next: Mutex<Vec<Hist>>,
     states: Mutex<u64>,
@@ -287,6 +296,7 @@ pub fn explore<O: E1Oracle, F: Fn() -> O + Sync>(p: &E1Params, rec: &Recorder, m
             spec_idx: i,
             specs: spec_from_index(i),
             seen: Mutex::new(HashSet::new()),
+            seen_batch: Mutex::new(HashSet::new()),
             frontier: vec![Hist::empty()],
             next: Mutex::new(vec![]),
             states: Mutex::new(0),
@@ -396,7 +406,16 @@ pub fn explore<O: E1Oracle, F: Fn() -> O + Sync>(p: &E1Params, rec: &Recorder, m
                         &mut c,
                     );
                     if oi >= alphabet_ref.batch_from {
-                        // batch results are reachable by the single calls; checked as transitions only
+                        // batch results are reachable by the single calls, so they are not expanded; but the OBJECT a
+                        // batch call leaves behind (in particular after a failing element) gets the state oracle too
+                        let fp = guarded(|| o.fingerprint(&g, alphabet_ref)).unwrap_or(0xdead_beef) as u128;
+                        let k = after.key() ^ (fp << 64 | fp);
+                        let fresh = s.seen_batch.lock().unwrap().insert(k);
+                        if fresh {
+                            let h2 = h.push(oi as u16);
+                            c.inc("post_batch_objects_checked");
+                            o.state(&StateCtx { spec_idx: s.spec_idx, specs: &s.specs, alphabet: alphabet_ref, hist: h2.slice(), g: &g, r: &ref_after, snap: &after }, rec, &mut c);
+                        }
                         continue;
                     }
                     let fp = guarded(|| o.fingerprint(&g, alphabet_ref)).unwrap_or(0xdead_beef) as u128;
